@@ -208,10 +208,17 @@ func (v *verifAssembly) run(in verifAssemblyIn) {
 				}
 			}
 		})
+		parentShownAsError, frontierKept := false, false
 		op("parents", func() {
+			/* as ui.switchTo and ui.loadSurroundings do: the frontier first, then the items above it */
+			_, frontier := tangible.Parents(0)
+			frontierKept = frontier != nil
 			parents, _ := tangible.Parents(2)
 			for _, it := range parents {
 				texts = append(texts, it.String(80))
+				if _, isFailure := it.(*Failure); isFailure {
+					parentShownAsError = true
+				}
 			}
 		})
 		ev["ops"] = ops
@@ -222,7 +229,8 @@ func (v *verifAssembly) run(in verifAssemblyIn) {
 			case *Post:
 				switch b {
 				case "parent":
-					failed = x.parentErr != nil
+					/* what a page shows: walking up from the post yields an error item */
+					failed = parentShownAsError && frontierKept
 				case "authors":
 					for _, c := range x.creators {
 						_, isFailure := c.(*Failure)
